@@ -3,6 +3,7 @@ package main
 import (
 	"context"
 	"fmt"
+	"hash/fnv"
 	"io"
 	"runtime"
 	"sort"
@@ -79,6 +80,23 @@ func anyAttrs(kvs []gen.KV) []any {
 	as := make([]any, 0, len(kvs))
 	for _, kv := range kvs {
 		as = append(as, kv.Attr())
+	}
+	return as
+}
+
+// mixedArgs passes about half of the attributes as plain "key", value pairs (also when the value is itself an Attr) and
+// the rest as Attr objects; the choice depends on the key only, so that re-runs of a sub-case pass it the same way.
+func mixedArgs(kvs []gen.KV) []any {
+	as := make([]any, 0, len(kvs)*2)
+	for _, kv := range kvs {
+		h := fnv.New32a()
+		h.Write([]byte(kv.Key))
+		plainGroup := kv.Val.Kind == "group" && kv.Val.Go == nil
+		if h.Sum32()%2 == 0 && !plainGroup {
+			as = append(as, kv.Key, kv.Val.Go)
+		} else {
+			as = append(as, kv.Attr())
+		}
 	}
 	return as
 }
